@@ -854,7 +854,7 @@ def r9_deleted_filter_scope(ctx, rule_id='R-C01.9'):
             else:
                 ctx.ok(f, 'loop filtered by deleted_columns ranges over %s' %
                        ', '.join(sorted(names)), l)
-    ctx.floor('uses of the deleted-column filter in to_sql', n_filters, 2)
+    ctx.floor('uses of the deleted-column filter in to_sql', n_filters, 1)
 
 
 def r10_quoted_identifiers(ctx, rule_id='R-C01.10'):
@@ -893,6 +893,38 @@ def r10_quoted_identifiers(ctx, rule_id='R-C01.10'):
                 else:
                     ctx.ok(f, 'quoted identifier %s' % unparse(a), c)
     ctx.floor('quoted attribute identifiers in db/', n, 10)
+    # the column a foreign key REFERENCES is the related model's primary key
+    # *field's* column (anything recorded elsewhere - e.g. the signature's
+    # pk_column - is not kept up to date by renames)
+    f = p.func(COMMON, 'BaseEvolutionOperations.build_column_schema')
+    refs = 0
+    for lst in walk_no_nested(f.node):
+        if not isinstance(lst, (ast.List, ast.Tuple)):
+            continue
+        elts = lst.elts
+        for i, e in enumerate(elts):
+            if const_str(e) != 'REFERENCES':
+                continue
+            refs += 1
+            quoted = [x for x in elts[i + 1:] for c2 in ast.walk(x)
+                      if isinstance(c2, ast.Call) and
+                      isinstance(c2.func, ast.Name) and c2.func.id == 'qn'
+                      for x in [c2]]
+            if len(quoted) >= 2 and isinstance(quoted[1].args[0],
+                                               ast.Attribute) and \
+                    quoted[1].args[0].attr == 'column' and \
+                    unparse(quoted[1].args[0].value).endswith('.pk'):
+                ctx.ok(f, 'REFERENCES names the related primary key '
+                       'field\'s column', quoted[1])
+            else:
+                ctx.finding(f, quoted[1] if len(quoted) >= 2 else lst,
+                            'the referenced column of a foreign key is %s, '
+                            'not the related model\'s primary key field '
+                            'column (<related>._meta.pk.column)' % (
+                                unparse(quoted[1].args[0])
+                                if len(quoted) >= 2 else '?'),
+                            key='references-not-pk-column')
+    ctx.floor('REFERENCES clauses in build_column_schema', refs, 1)
 
 
 def r11_sibling_return_order(ctx, rule_id='R-C01.11'):
@@ -1027,12 +1059,65 @@ def r13_deleted_column_forgotten(ctx, rule_id='R-C01.13'):
                     key='deleted-column-indexes-stay')
 
 
+def r14_m2m_through_naming(ctx, rule_id='R-C01.14'):
+    """Django names the two foreign keys of an automatic many-to-many table
+    from_<model> / to_<model> exactly when the *lower-cased model names* of
+    the two ends are equal (also across apps); otherwise <from model> /
+    <to model>.  The mock through-model built for SQL generation must take
+    the same decision from the same quantity: a comparison of name strings.
+    Comparing model objects (MockModel.__eq__ also compares the app label)
+    gives a different answer for same-named models of two apps, and the
+    generated table has one column instead of two."""
+    ctx.rule(rule_id)
+    p = ctx.program
+    f = p.func('mock_models', 'create_field')
+    g = ctx.cfg(f)
+    sites = [n for n in g.nodes if n.kind == 'stmt' and
+             isinstance(n.ast, ast.Assign) and any(
+                 isinstance(x, ast.Constant) and isinstance(x.value, str) and
+                 x.value.startswith(('from_', 'to_'))
+                 for x in ast.walk(n.ast.value))]
+    ctx.floor('from_/to_ naming sites in create_field', len(sites), 1)
+    # the innermost if statement whose body holds the naming statements
+    inner_ifs = [i for i in walk_no_nested(f.node) if isinstance(i, ast.If)
+                 and any(n.ast in i.body for n in sites)]
+    tests = [t for t in g.nodes if t.kind in ('test', 'operand') and
+             any(t.stmt is i for i in inner_ifs) and
+             isinstance(t.ast, ast.Compare)]
+    if not tests:
+        ctx.finding(f, sites[0].ast, 'the from_/to_ naming of an automatic '
+                    'many-to-many table is not decided by a comparison',
+                    key='m2m-naming-undecided')
+        return
+    def name_side(e):
+        txt = unparse(e)
+        return ('.lower()' in txt or 'model_name' in txt or
+                txt.endswith('_name') or 'CONSTANT' in txt or
+                isinstance(e, ast.Constant))
+    good = [t for t in tests if any(
+        name_side(x) for x in [t.ast.left] + list(t.ast.comparators))]
+    names_only = good
+    if names_only and any(t in good for t in names_only) and \
+            len(names_only) == len(tests):
+        ctx.ok(f, 'from_/to_ naming is decided by comparing lower-cased '
+               'model names (as Django does)', names_only[0].ast)
+    else:
+        bad = [t for t in tests if t not in names_only] or tests
+        ctx.finding(f, bad[0].ast, 'the from_/to_ naming of an automatic '
+                    'many-to-many table is decided by "%s", not by a '
+                    'comparison of lower-cased model names: same-named models '
+                    'in two apps get a through table with a single column' %
+                    ' '.join(unparse(bad[0].ast).split()),
+                    key='m2m-naming-not-by-name')
+
+
 def r7_optimiser_identity(ctx):
     from .c03 import r7_identity_membership
     r7_identity_membership(ctx, rule_id='R-C01.7')
 
 
 def run(ctx):
+    r14_m2m_through_naming(ctx)
     r12_state_tracks_indexes_only(ctx)
     r13_deleted_column_forgotten(ctx)
     r10_quoted_identifiers(ctx)
